@@ -5,7 +5,7 @@ struct; its wrapper is the function of the instance that calls `get` on that
 field; the key function is whatever computes the second argument of that call.
 """
 from .. import mir
-from ..mir import short, last, strip, walk
+from ..mir import short, last, strip, walk, norm
 
 
 def cache_fields(inst):
@@ -227,3 +227,77 @@ def cached_wrappers(cx):
 
 def describe_path(body, path):
     return " -> ".join("bb%d(%s:%d)" % (i, body.blocks[i]["span"]["file"].split("/")[-1], body.blocks[i]["span"]["line"]) for i in path)
+
+
+class LeftrecLoop:
+    """Structure of the seed-and-grow loop of a @leftrec wrapper (role-based):
+    B = the local whose clones are inserted (best result), head = loop header,
+    N = the value of the body evaluation matched against B."""
+
+    def __init__(self, w):
+        self.w = w
+        b = self.b = w.body
+        self.problems = []
+        self.B = None
+        bl = set()
+        for (i, t) in w.inserts:
+            vop = t["args"][2]
+            src = None
+            if vop["k"] in ("move", "copy"):
+                cl = b.single_def(vop["place"]["l"])
+                if cl and cl[2] == "call" and last(cl[3]["func"]["path"]) == "clone":
+                    a0 = cl[3]["args"][0]
+                    rl = a0["place"]["l"] if a0["k"] in ("move", "copy") else None
+                    rd = b.single_def(rl) if rl is not None else None
+                    if rd and rd[2] == "rv" and rd[3]["k"] == "ref" and not rd[3]["place"]["p"]:
+                        src = rd[3]["place"]["l"]
+            bl.add(src)
+        if len(bl) != 1 or None in bl:
+            self.problems.append("inserted values are not clones of one best-result variable")
+            return
+        self.B = bl.pop()
+        heads = sorted({j for (_, j) in b.back_edges()})
+        if len(heads) != 1:
+            self.problems.append("expected exactly one loop, found %d" % len(heads))
+            return
+        self.head = heads[0]
+        self.loop = b.loop_blocks(self.head)
+        self.back_srcs = [i for (i, j) in b.back_edges() if j == self.head]
+        self.insert_bbs = {i for (i, _) in w.inserts}
+        self.B_defs = [(d[0], d) for d in b.defs.get(self.B, [])]
+        after = b.reachable_from(self.head)
+        self.seed_defs = [x for x in self.B_defs if x[0] not in after]
+        self.loop_defs = [x for x in self.B_defs if x[0] in after]
+
+    def path_edges(self, path):
+        """Atoms (norm expr, value) of the switch edges taken along an explicit block path."""
+        b = self.b
+        out = []
+        for k in range(len(path) - 1):
+            x, y = path[k], path[k + 1]
+            t = b.blocks[x]["term"]
+            if t["k"] != "switch" or b.is_noise_switch(x):
+                continue
+            labs = [lab[1] for (j, lab) in b.succ[x] if j == y]
+            if len(labs) != 1:
+                continue
+            e, ty = b.switch_info(x)
+            val = labs[0]
+            if ty == "bool":
+                val = mir.truth(val if val != "otherwise" else ("not", tuple(v for v, _ in t["targets"])))
+            out.append((norm(e), val, x))
+        return out
+
+    def iter_paths(self, start, stops):
+        """Acyclic paths from start to any block in stops (stops are included as last element)."""
+        b = self.b
+        out = []
+        st = [(start, [start])]
+        while st:
+            x, acc = st.pop()
+            for y in b.succs(x):
+                if y in stops:
+                    out.append(acc + [y])
+                elif y not in acc and len(out) < 5000:
+                    st.append((y, acc + [y]))
+        return out
